@@ -5,6 +5,7 @@ import (
 	"encoding/json"
 	"fmt"
 	"strings"
+	"sync"
 
 	"github.com/trustbloc/sidetree-go/pkg/jws"
 	"github.com/trustbloc/sidetree-go/pkg/jwsutil"
@@ -22,7 +23,7 @@ func init() {
 		ID:          "C15",
 		Rule:        "cases: for each of the five key types, payloads of 1 B..4 KiB (binary and JSON) signed with the library's signers via SignPayload and SignModel; oracle by construction: verify under the matching JWK must succeed and return the payload; under every other key (same and other types, and the mirror point (x, p-y) tried before or after the matching key) must fail; a third of the EC keys are drawn until a coordinate has a leading zero byte; every single-bit change of the decoded header, payload and signature (all bits for one JWS per key type, strided otherwise; segments re-encoded) must fail; wrong-length signatures, unsupported kty/crv and malformed compact splits must error. Signing is repeated until signatures with a leading zero byte in r or s were seen for every EC curve. distinct = (key type, payload class, tampering class, segment, bit-position bucket).",
 		Assumptions: []string{"forgery resistance of Ed25519 / ECDSA (a random bit flip does not yield a valid signature)", "harness base64url codec"},
-		Require:     []string{"verify-ok", "signer-reuse", "other-key", "bit-flip-header", "bit-flip-payload", "bit-flip-signature", "malformed", "leading-zero-rs", "mirror-key", "leading-zero-coordinate-keys", "header-trailing-data", "curve-renamed-key"},
+		Require:     []string{"verify-ok", "signer-reuse", "other-key", "bit-flip-header", "bit-flip-payload", "bit-flip-signature", "malformed", "leading-zero-rs", "mirror-key", "leading-zero-coordinate-keys", "header-trailing-data", "curve-renamed-key", "concurrent-verifications"},
 		Workers:     func(string) int { return 15 },
 		Run:         runC15,
 	})
@@ -60,6 +61,10 @@ func runC15(r *fw.Runner) {
 		_ = ti
 	}
 	r.Case("malformed", func(c *fw.Case) { c15Malformed(c) })
+	for _, typ := range gen.AllKeyTypes {
+		typ := typ
+		r.Case("verified-from-many-goroutines-"+typ, func(c *fw.Case) { c15Concurrent(c, typ) })
+	}
 }
 
 func payloadFor(r *fw.Rand) ([]byte, string) {
@@ -420,6 +425,11 @@ func c15Malformed(c *fw.Case) {
 		"trailing-dot":       compact + ".",
 		"spaces":             p[0] + " . " + p[1] + " . " + p[2],
 	}
+	// white space around the compact form (carriage return / line feed are skipped by Go's base64 decoder and not demanded here)
+	for name, ws := range map[string]string{"blank": " ", "tab": "\t", "vertical-tab": "\v", "form-feed": "\f", "nel": "\u0085", "nbsp": "\u00a0", "blanks": "   "} {
+		bad["leading-"+name] = ws + compact
+		bad["trailing-"+name] = compact + ws
+	}
 	for name, s := range bad {
 		c.Count("malformed", 1)
 		c.Evals(2)
@@ -435,4 +445,56 @@ func c15Malformed(c *fw.Case) {
 		}
 	}
 	c.Sample(map[string]interface{}{"malformed_classes": len(bad), "example": bad["empty-payload"]})
+}
+
+// c15Concurrent: valid JWS verify under their keys also when many goroutines verify at once (VerifyJWS keeps no state of its own).
+func c15Concurrent(c *fw.Case, typ string) {
+	r := c.Rng
+	type item struct {
+		jws string
+		jwk *jws.JWK
+	}
+	var items []item
+	for i := 0; i < 6; i++ {
+		k := gen.NewKey(r, typ)
+		compact, err := signutil.SignPayload(r.Bytes(r.Range(20000, 65000)), signerFor(k, ""))
+		if err != nil {
+			c.Failf("sign-error", map[string]interface{}{"key_type": typ, "err": err.Error()}, "signing failed: %v", err)
+			return
+		}
+		items = append(items, item{compact, toLibJWK(k.JWK())})
+	}
+	const G, rounds = 16, 40
+	var mu sync.Mutex
+	var failures []string
+	var wg sync.WaitGroup
+	for g := 0; g < G; g++ {
+		wg.Add(1)
+		go func(g int) {
+			defer wg.Done()
+			defer func() {
+				if p := recover(); p != nil {
+					mu.Lock()
+					failures = append(failures, fmt.Sprintf("panic: %v", p))
+					mu.Unlock()
+				}
+			}()
+			for i := 0; i < rounds; i++ {
+				it := items[(g+i)%len(items)]
+				if _, err := jwsutil.VerifyJWS(it.jws, it.jwk); err != nil {
+					mu.Lock()
+					failures = append(failures, err.Error())
+					mu.Unlock()
+				}
+			}
+		}(g)
+	}
+	wg.Wait()
+	c.Count("concurrent-verifications", G*rounds)
+	c.Evals(G * rounds)
+	c.Sig("concurrent", typ)
+	if len(failures) > 0 {
+		c.Failf("valid-jws-refused-under-concurrent-verification", map[string]interface{}{"key_type": typ, "failures": len(failures), "first": failures[0], "goroutines": G},
+			"%d of %d verifications of valid %s JWS failed when %d goroutines verified at once: %s", len(failures), G*rounds, typ, G, failures[0])
+	}
 }
